@@ -129,11 +129,28 @@ async def check_request(ctx, s, engine, req, sdl, gp):
 
 
 async def run_case(ctx, rng, index):
-    s, b = await X.new_bundle(rng, smodel.GenOpts(p_mutation=0.2, p_nonnull=rng.choice([0.2, 0.4])))
+    so = smodel.GenOpts(p_mutation=0.2, p_nonnull=rng.choice([0.2, 0.4]))
+    s, b = await X.new_bundle(rng, so)
+    if index % 4 == 0:
+        # every fourth case: a schema with a list of an interface whose items can be of different concrete types, and documents
+        # whose merged field nodes differ from item to item
+        so.n_interfaces = (1, 3)
+        for _try in range(30):
+            if smodel.supports_hetero(s):
+                break
+            b.dispose()
+            s, b = await X.new_bundle(rng, so)
     try:
-        for _ in range(DOCS_PER_SCHEMA):
+        for k_doc in range(DOCS_PER_SCHEMA):
             req0 = X.gen_request(rng, s, docgen.DocOpts(force_typename=True, max_fields=rng.choice([10, 20]),
                                                         max_depth=rng.choice([3, 4]), op_kinds=("query", "mutation")))
+            if index % 4 == 0 and k_doc % 2 == 0 and smodel.supports_hetero(s):
+                for _try in range(20):
+                    if getattr(req0.doc, "hetero", 0):
+                        ctx.stats.inc("requests_with_per_item_merged_nodes")
+                        break
+                    req0 = X.gen_request(rng, s, docgen.DocOpts(force_typename=True, max_fields=rng.choice([10, 20]), max_depth=4,
+                                                                p_hetero=1.0, op_kinds=("query",)))
             for k in range(WORLDS_PER_DOC):
                 req = req0 if k == 0 else X.gen_request(rng, s, doc=req0.doc)
                 await check_request(ctx, s, b.engine, req, b.sdl, rng.choice([0.1, 0.25, 0.5]))
